@@ -236,6 +236,8 @@ def main():
     common.run_cases(rep, run_case, cases())
     from harness import k_lemmas
     k_lemmas.run_into(rep, ['k_ghost'])
+    from harness import conformance
+    conformance.run_into(rep)
     return rep.finish()
 
 
